@@ -156,16 +156,19 @@ def retireByIdentity : Bool :=
   followedBy ifSameHandler ((bodyOfFrom ifSameHandler publishFlow)) publishFlow &&
   (bodyOfFrom ifSameHandler publishFlow).getLast? == some breakT
 
-/-- callHandlerWithContext: the recovering `defer` is registered first; inside it: recover, the panic handler (only
-when something was recovered), then – always – the handler-complete callback; then handler-start, then the Sequential
-mutex (unlock deferred right after the lock), then the call -/
+/-- callHandlerWithContext: the Sequential mutex is taken first (unlock deferred right after the lock) and the context
+is checked again once it is held – the only early return of the function (a publish cancelled while the goroutine waited
+does not start the handler); then the recovering `defer` is registered; inside it: recover, the panic handler (only when
+something was recovered), then – always – the handler-complete callback; then handler-start, then the call -/
 def handlerBracket : Bool :=
-  chain [deferO, recoverC, panicHandlerC, obsHandlerComplete, obsHandlerStart, handlerLock, handlerUnlockDeferred, switchO] handlerFlow &&
+  chain [handlerLock, handlerUnlockDeferred, caseCtxDone, deferO, recoverC, panicHandlerC, obsHandlerComplete, obsHandlerStart, switchO] handlerFlow &&
   inside recoverC deferO handlerFlow && inside panicHandlerC deferO handlerFlow && inside obsHandlerComplete deferO handlerFlow &&
   inside panicHandlerC ifRecovered handlerFlow && outside obsHandlerComplete ifRecovered handlerFlow &&
   outside obsHandlerStart deferO handlerFlow && count obsHandlerStart handlerFlow == 1 && count obsHandlerComplete handlerFlow == 1 &&
-  count panicHandlerC handlerFlow == 1 && followedBy handlerLock [handlerUnlockDeferred] handlerFlow &&
-  inside handlerLock ifSeq handlerFlow && noReturn handlerFlow
+  count panicHandlerC handlerFlow == 1 &&
+  followedBy handlerLock [handlerUnlockDeferred, selectO, caseCtxDone, returnT, closeTok, defaultO, closeTok, closeTok, closeTok] handlerFlow &&
+  inside handlerLock ifSeq handlerFlow && noReturnOutside ifSeq handlerFlow &&
+  (handlerFlow.filter (fun t => returns.contains t)).length == 1
 
 /-- persistEvent: marshal first (a failure is reported and nothing is appended), then ONE append (in no loop) inside
 the `storeMu` critical section together with the update of `lastOffset`, which happens only on success; persist-start
